@@ -175,6 +175,12 @@ func (r *runner) run(h history, lastOnly bool) (key string, canMerge bool, trans
 		failed = true
 		c.Fail(class, h, "%s  [history %s]", fmt.Sprintf(f, a...), enum.J(h))
 	}
+	defer func() {
+		// a panic inside the sorter delivers nothing: a verdict on this history, not a crash of the harness
+		if p := recover(); p != nil {
+			fail("panic", "the sorter panicked: %v", p)
+		}
+	}()
 	serial := 0
 	for ci, cy := range h.Cycles {
 		check := !lastOnly || ci == len(h.Cycles)-1
@@ -407,7 +413,7 @@ var (
 )
 
 func run(c *enum.Ctx) {
-	c.Rule("breadth-first search over cycle histories on a real sorter: each transition is one whole cycle (push a value word, Finalise, k Pulls, Clear) from an alphabet with push counts 0,1,chunk-1,chunk,chunk+1,(chunk+2 for chunk 5),2chunk+1 (thorough: 2chunk, 3chunk+1), every value word over {1,2} up to length 3 (5) and every pull count in {0,1,half,all,all+1}; states are merged at cycle boundaries on a reflective key of the sorter (every field of the struct: scalars, slice shapes, channel contents, nil-ness of interfaces; strings and sync primitives skipped); run to closure per configuration (chunk 1,2,3,5 x AutoClear x concurrent x element type); reference model = sorted multiset; non-trivial = histories whose last cycle spills")
+	c.Rule("breadth-first search over cycle histories on a real sorter: each transition is one whole cycle (push a value word, Finalise, k Pulls, Clear) from an alphabet with push counts 0,1,chunk-1,chunk,chunk+1,(chunk+2 for chunk 5),2chunk+1 (thorough: 2chunk, 3chunk+1), every value word over {1,2} up to length 3 (5) and every pull count in {0,1,half,all,all+1}; states are merged at cycle boundaries on a reflective key of the sorter (every field of the struct: scalars, slice shapes, channel contents, nil-ness of interfaces; strings and sync primitives skipped); run to closure per configuration (chunk 1,2,3,5 x AutoClear x concurrent x element type); reference model = sorted multiset; plus the size ladder: chunk sizes 2^k-1, 2^k, 2^k+1 up to 2049 (thorough 4097) with one- and two-cycle histories around the chunk size, and 7..513 run files at chunk sizes 1 and 2; non-trivial = histories whose last cycle spills")
 	c.Assume("protocol order push* finalise pull* clear; Clear implicit after EOF with AutoClear", "two histories with equal boundary keys have equal futures (the key is read from the real object; a missing field disables merging); histories of up to 2 (thorough: 3) cycles are all run without merging")
 	work := os.Getenv("VERIF_WORK")
 	if work == "" {
@@ -437,6 +443,59 @@ func run(c *enum.Ctx) {
 		})
 	}
 	c.Set("per_configuration", boundary)
+	// the size ladder: chunk sizes 2^k-1, 2^k, 2^k+1 (7..2049, thorough 4097) with one- and two-cycle
+	// histories whose counts lie on both sides of the chunk size (and a little beyond: below the capacity
+	// a grown buffer would have), and chunk sizes 1 and 2 with 2^k-1, 2^k, 2^k+1 values (many runs: 7..513
+	// run files); every cycle drained and checked
+	top := 2049
+	if !c.Quick {
+		top = 4097
+	}
+	type lj struct {
+		cfg config
+		h   [][2]int // (count, pulls) per cycle
+	}
+	var ljs []lj
+	vals := func(n int) []int {
+		v := make([]int, n)
+		for i := range v {
+			v[i] = 1 + (n-i)%7 // descending within a period, duplicates
+		}
+		return v
+	}
+	for _, chunk := range enum.Ladder(7, top) {
+		for _, ac := range []bool{false, true} {
+			for _, conc := range []bool{false, true} {
+				cfg := config{chunk, ac, conc, false}
+				for _, n := range []int{chunk - 1, chunk, chunk + 1, chunk + chunk/8 + 2, 2*chunk + 1} {
+					ljs = append(ljs, lj{cfg, [][2]int{{n, n + 1}}})
+					ljs = append(ljs, lj{cfg, [][2]int{{3, 4}, {n, n + 1}}})
+					ljs = append(ljs, lj{cfg, [][2]int{{chunk + 1, 2}, {n, n + 1}}})
+				}
+			}
+		}
+	}
+	for _, chunk := range []int{1, 2} {
+		for _, n := range enum.Ladder(7, 513) {
+			for _, conc := range []bool{false, true} {
+				ljs = append(ljs, lj{config{chunk, n%2 == 0, conc, n%3 == 0}, [][2]int{{n * chunk, n*chunk + 1}}})
+			}
+		}
+	}
+	enum.Parallel(len(ljs), func(i int) {
+		r := &runner{c: c, parent: filepath.Join(work, fmt.Sprintf("c11-ladder-%d", i))}
+		os.MkdirAll(r.parent, 0o755)
+		defer os.RemoveAll(r.parent)
+		h := history{Cfg: ljs[i].cfg}
+		for _, cy := range ljs[i].h {
+			h.Cycles = append(h.Cycles, cycle{vals(cy[0]), cy[1]})
+		}
+		c.Doing(1000+i, h)
+		c.Eval()
+		r.run(h, false)
+		c.Nontrivial(fmt.Sprint("ladder", i))
+	})
+	c.Set("ladder_histories", len(ljs))
 }
 
 func main() {
